@@ -198,10 +198,12 @@ def cargo_build(area):
 # ---------------------------------------------------------------------------------------------
 # S4: running the two sides
 
-MAX_FATAL = 12    # after this many crashes/hangs in one stream the rest of the stream is not run
+MAX_FATAL = 12
+MAX_TIMEOUTS_TOTAL = 8   # hangs are expensive (stall_s each): after this many in one check, stop exploring
+_timeouts_seen = [0]    # after this many crashes/hangs in one stream the rest of the stream is not run
 
 
-def _run_stream(binary, lines, tag, stall_s=15.0):
+def _run_stream(binary, lines, tag, stall_s=10.0):
     """Feed `lines` to `binary`; returns one observation per line.  A crash or a hang is attributed
     to the first case without an output line (the harness flushes after every case).  A hang is
     detected by lack of progress: no new output line for `stall_s` seconds."""
@@ -211,7 +213,7 @@ def _run_stream(binary, lines, tag, stall_s=15.0):
     n = len(lines)
     fatal = 0
     while start < n:
-        if fatal >= MAX_FATAL:
+        if fatal >= MAX_FATAL or _timeouts_seen[0] >= MAX_TIMEOUTS_TOTAL:
             obs.extend(["SKIPPED-AFTER-FATAL"] * (n - start))
             break
         chunk = lines[start:]
@@ -242,6 +244,7 @@ def _run_stream(binary, lines, tag, stall_s=15.0):
                     p.kill()
                     p.wait()
                     status = "TIMEOUT"
+                    _timeouts_seen[0] += 1
                     break
         got = open(outp, encoding="utf-8", errors="replace").read().split("\n")
         if got and got[-1] == "":
@@ -500,9 +503,10 @@ def run_check(P, tier, seed, replay=None):
         by_class.setdefault(P.failure_class(c, i, why), []).append((c, i, why))
     for cls, items in sorted(by_class.items())[:6]:
         c, i, why = min(items, key=lambda t: len(t[0]))
-        small = P.shrink(c, fails_pred)
+        # a hang costs `stall_s` per attempt: report the shortest hanging case as it is
+        small = c if str(i).startswith("TIMEOUT") else P.shrink(c, fails_pred)
         kf = None
-        r = evaluate([small])[0]
+        r = (c, i, None, why, False) if str(i).startswith("TIMEOUT") else evaluate([small])[0]
         for k in known:
             if P.matches_known(k, small, r[1], r[3] or why):
                 kf = k
